@@ -1437,9 +1437,15 @@ fn u16_full(sum: &mut Summary) {
 }
 
 thread_local! { static LAST_PANIC: std::cell::RefCell<String> = std::cell::RefCell::new(String::new()); }
+thread_local! { static CUR_CASE: std::cell::Cell<usize> = std::cell::Cell::new(0); }
 fn main() {
     let a = parse_args();
     std::panic::set_hook(Box::new(|info| { LAST_PANIC.with(|l| *l.borrow_mut() = format!("{info}").replace('\n', " ")); }));
+    // a panic that nothing catches (the harness's own bookkeeping tripping over an answer of the implementation) must
+    // not end the run silently: say which case and what
+    struct Bomb;
+    impl Drop for Bomb { fn drop(&mut self) { if std::thread::panicking() { eprintln!("harness c01: uncaught panic in case {}: {}", CUR_CASE.with(|c| c.get()), LAST_PANIC.with(|l| l.borrow().clone())); } } }
+    let _bomb = Bomb;
     let ctx = Ctx { pool: small_pool() };
     assert_eq!(ctx.pool.len() as u64, NT);
     let all = stores();
@@ -1460,6 +1466,8 @@ a lookup succeeded); distinct = distinct printed case text (store, ops with matc
     let base = Rng::new(a.seed);
     let range: Vec<usize> = match a.only { Some(i) => vec![i], None => (0..a.n).collect() };
     for idx in range {
+        CUR_CASE.with(|c| c.set(idx));
+        if a.only.is_none() { let _ = std::fs::create_dir_all(&a.out); let _ = std::fs::write(format!("{}/progress", a.out), idx.to_string()); }
         let mut r = base.fork(idx as u64);
         if idx % 20 == 3 {
             // SimpleTermIndex on its own
